@@ -5,6 +5,8 @@ Line-protocol driver for the dependency-check model (C04).
 
   begin                      -> ok                      (empty hub)
   add <id> | del <id> | clr <id> | en <id> 0|1 | reload
+  static <id>                (core.ports.load of a driver port: non-virtual — DELETE refuses it (ok not-removable),
+                              PUT /ports keeps it, with its expression cleared before the entries are applied)
   set <id> bad               (text refused by the real parser)
   set <id> <expr tokens…>    (prefix encoding of the parsed tree)
                              -> ok ok | ok no-such-port | ok duplicate-port | ok parse-error | ok circular | err fuel
@@ -89,6 +91,7 @@ def fmtOutcome : Outcome → String
   | .parseError => "ok parse-error"
   | .circular => "ok circular"
   | .fuel => "err fuel"
+  | .notRemovable => "ok not-removable"
 
 def fmtHub (h : Hub) : String :=
   "ok " ++ "\t".intercalate (h.ports.map fun p =>
@@ -110,6 +113,7 @@ def dstep (d : DState) : List String → DState × String
     | s :: rest => ({ sys := s, stack := rest }, "ok")
     | [] => (d, "bad-op")
   | ["add", id] => apply d (.hub (.addPort id))
+  | ["static", id] => apply d (.addStatic id)
   | ["del", id] => apply d (.hub (.removePort id))
   | ["clr", id] => apply d (.hub (.clear id))
   | ["en", id, "0"] => apply d (.hub (.setEnabled id false))
